@@ -61,8 +61,8 @@ type Request struct {
 	Conn        *Conn
 	Node        string // node IP
 	Header      frame.Header
-	RawHeader   []byte // the 9 header bytes as received
-	RawBody     []byte // body bytes as received (compressed if the connection is)
+	RawHeader   []byte       // the 9 header bytes as received
+	RawBody     []byte       // body bytes as received (compressed if the connection is)
 	Frame       *frame.Frame // decoded with the reference codec; nil if undecodable
 	DecodeErr   error
 	Keyspace    string // the connection's keyspace when the frame arrived
@@ -117,7 +117,7 @@ type Cluster struct {
 	Handler func(rq *Request) Response
 	// MissingKeyspaces makes `USE ks` fail with an Invalid error.
 	MissingKeyspaces map[string]bool
-	OnConnect func(c *Conn)
+	OnConnect        func(c *Conn)
 	// SystemHandler may override the answer to the proxy's topology queries (broken backends).
 	SystemHandler func(c *Conn, query string) (Response, bool)
 }
